@@ -21,6 +21,7 @@ import (
 
 	"github.com/deadsy/sdfx/render"
 	"github.com/deadsy/sdfx/sdf"
+	v2 "github.com/deadsy/sdfx/vec/v2"
 	v3 "github.com/deadsy/sdfx/vec/v3"
 )
 
@@ -435,6 +436,31 @@ func c09Record(args []string) error {
 				}
 			}
 		}
+		// a memoising 2D wrapper inside an extrusion: every z-column asks for the same 2D point, and columns that
+		// straddle an evaluation batch are asked by two workers at once
+		{
+			star, _ := sdf.Polygon2D([]v2.Vec{{X: 2, Y: 0}, {X: 0.6, Y: 0.5}, {X: 0, Y: 2}, {X: -0.5, Y: 0.6}, {X: -2, Y: 0}, {X: -0.6, Y: -0.5}, {X: 0, Y: -2}, {X: 0.5, Y: -0.6}})
+			for _, gp := range procs {
+				runtime.GOMAXPROCS(gp)
+				for k := 0; k < 4; k++ {
+					ex := sdf.Extrude3D(sdf.Cache2D(star), 3)
+					ts := render.ToTriangles(ex, render.NewMarchingCubesUniform(53))
+					emit(detObs{"det", "cached-star/uniform/53/mem", fmt.Sprintf("gomaxprocs=%d k=%d rep=%d", gp, k, rep), digestTris(ts), len(ts)})
+				}
+			}
+		}
+		// an octree deep enough (> 2^8 cells) for any "large cubes first / in parallel" strategy to engage
+		{
+			rod, _ := sdf.Box3D(v3.Vec{X: 30, Y: 1, Z: 1}, 0.3)
+			for _, gp := range []int{1, ncpu} {
+				runtime.GOMAXPROCS(gp)
+				for k := 0; k < 2; k++ {
+					ts := render.ToTriangles(rod, render.NewMarchingCubesOctree(300))
+					emit(detObs{"det", "rod/octree/300/mem", fmt.Sprintf("gomaxprocs=%d k=%d rep=%d", gp, k, rep), digestTris(ts), len(ts)})
+				}
+			}
+			runtime.GOMAXPROCS(ncpu)
+		}
 		// concurrent renders run in a child process: a crash of the library there is an observation
 		concurrentInChild(rep)
 		// the same path written again after a longer file (an earlier, finer render)
@@ -523,6 +549,32 @@ func c09Concurrent(args []string) error {
 		wg.Wait()
 		for i := 0; i < 4; i++ {
 			emit(detObs{"det", fmt.Sprintf("%s/uniform/%d/mem", models[i%2].name, 11+12*(i/2)), fmt.Sprintf("concurrent rep=%d", rep), digestTris(res[i]), len(res[i])})
+		}
+		// larger concurrent uniform renders of different models and resolutions, released together: sequential
+		// references first, then three rounds of six overlapping renders
+		{
+			cellsOf := func(i int) int { return 37 + 8*(i/2) }
+			for i := 0; i < 6; i++ {
+				ts := render.ToTriangles(models[i%2].s, render.NewMarchingCubesUniform(cellsOf(i)))
+				emit(detObs{"det", fmt.Sprintf("%s/uniform/%d/mem", models[i%2].name, cellsOf(i)), fmt.Sprintf("sequential-ref rep=%d", rep), digestTris(ts), len(ts)})
+			}
+			for round := 0; round < 3; round++ {
+				big := make([][]*sdf.Triangle3, 6)
+				start := make(chan struct{})
+				for i := 0; i < 6; i++ {
+					wg.Add(1)
+					go func(i int) {
+						defer wg.Done()
+						<-start
+						big[i] = render.ToTriangles(models[i%2].s, render.NewMarchingCubesUniform(cellsOf(i)))
+					}(i)
+				}
+				close(start)
+				wg.Wait()
+				for i := 0; i < 6; i++ {
+					emit(detObs{"det", fmt.Sprintf("%s/uniform/%d/mem", models[i%2].name, cellsOf(i)), fmt.Sprintf("concurrent-big round=%d rep=%d", round, rep), digestTris(big[i]), len(big[i])})
+				}
+			}
 		}
 		// concurrent octree renders of different models and resolutions; one of them is slow, so that
 		// the others run start to end while it is in the middle of its render
